@@ -132,6 +132,16 @@ theorem collision_counterexample :
   refine ⟨by decide, by decide, by decide, by decide, by decide⟩
 
 
+/-- F17 (code before the fix): on a DATETIME dimension the position id of a MISSING element
+    (`-1`, "No Data") turned into the element's value object — unusable (`TypeError`) wherever the
+    translated id is hashed; the fixed model leaves such a reference alone, so it is ignored. -/
+theorem unfixed_datetime_missing_ref_counterexample :
+    let d : DtDim := { items := [ { id := 0, value := some "2001-01-01" }, { id := -1, value := none } ] }
+    Unfixed.translateDt d (.int (-1)) = .raises "TypeError: unhashable type: 'dict'" ∧
+    translateDt d (.int (-1)) = .int (-1) ∧
+    Unfixed.translateDt d (.int 0) = .ok (translateDt d (.int 0)) := by
+  refine ⟨by decide, by decide, by decide⟩
+
 /-! ### non-vacuity -/
 
 def exDim : Dim :=
